@@ -107,10 +107,23 @@ func run(dir string, env []string, name string, args ...string) (string, error) 
 
 func buildVinstr() string {
 	bin := filepath.Join(build, "bin", "vinstr")
-	out, err := run(filepath.Join(home, "instr"), nil, goBin, "build", "-o", bin, ".")
+	if bi, err := os.Stat(bin); err == nil {
+		fresh := true
+		for _, f := range []string{"main.go", "go.mod", "go.sum"} {
+			if si, err := os.Stat(filepath.Join(home, "instr", f)); err != nil || si.ModTime().After(bi.ModTime()) {
+				fresh = false
+			}
+		}
+		if fresh {
+			return bin
+		}
+	}
+	tmp := fmt.Sprintf("%s.%d", bin, os.Getpid())
+	out, err := run(filepath.Join(home, "instr"), nil, goBin, "build", "-o", tmp, ".")
 	if err != nil {
 		infra("building vinstr: %v\n%s", err, out)
 	}
+	os.Rename(tmp, bin)
 	return bin
 }
 
